@@ -1,13 +1,15 @@
 import Utcp.Lemmas.Conn
 import Utcp.Handshake
 import Utcp.Props.C13
+import Utcp.Props.C01
 /-!
 # C04 — nothing is delivered that was not sent; nothing twice; replays are inert
 
 Local part, for one endpoint fed *arbitrary* bytes: a datagram whose header is not newer than what has been
 accepted (or whose ack field lies outside the window of packets awaiting a verdict) changes nothing except
 the receive timestamp and the cached session / client id: no delivery, no status callback, no datagram, no
-allocation — and therefore no change in what is delivered afterwards.
+allocation — and therefore no change in what is delivered afterwards.  Over every history (from C01's order invariant):
+no reliable channel sequence number is ever handed to the application twice, whatever is replayed (`reliable_at_most_once`).
 -/
 namespace Utcp.Props.C04
 open Utcp Utcp.Gen
@@ -70,5 +72,10 @@ theorem endpoint_stale_inert {T} (tm : TimeOps T) (e : Env) (rng : Rng) (ep : En
 /-! non-vacuity -/
 example : ({ inSeq := 16383 } : Notify).deltaSeq { seq := 16383, ackedSeq := 0, words := 1, hist := [] } = 0 := by decide
 example : ({ inSeq := 2, outSeq := 5, outAckSeq := 4 } : Notify).deltaSeq { seq := 16380, ackedSeq := 4, words := 1, hist := [] } = 0 := by decide
+
+/-- **at most once, for every history**: however often and wherever datagrams are re-injected (or forged), no reliable bunch of a
+channel is delivered a second time -/
+theorem reliable_at_most_once (ops : List (Env × C01.Op)) (c : Conn) (h : RecvInv c) (ch : Nat) :
+    (relLog ch (C01.run c ops).log).Nodup := C01.delivered_once ops c h ch
 
 end Utcp.Props.C04
